@@ -182,6 +182,7 @@ class ShardState:
         self.failures: List[dict] = []
         self.harness_error: Optional[str] = None
         self.timeouts = 0
+        self.timeout_cases: List[Any] = []
         self.first_fail_time: Optional[float] = None
         self.shrink_budget = 25.0 if tier == "quick" else 120.0
         self.give_up = False
@@ -224,6 +225,8 @@ class ShardState:
         except CaseTimeout:
             self.timeouts += 1
             self.evaluations += 1
+            if len(self.timeout_cases) < 2:
+                self.timeout_cases.append(case)
             return
         except Violation as v:
             self.evaluations += 1
@@ -281,6 +284,7 @@ class ShardState:
             "n_failing_cases": len(self.failures),
             "harness_error": self.harness_error,
             "timeouts": self.timeouts + (1 if self.out_of_time else 0),
+            "timeout_cases": self.timeout_cases,
         }
 
 
@@ -571,6 +575,7 @@ def merge_results(results: List[dict], killed: int = 0) -> dict:
         "failures": [],
         "harness_errors": [],
         "timeouts": 0,
+        "timeout_cases": [],
         "killed_shards": killed,
     }
     for r in results:
@@ -587,6 +592,7 @@ def merge_results(results: List[dict], killed: int = 0) -> dict:
         if r.get("harness_error"):
             out["harness_errors"].append(r["harness_error"])
         out["timeouts"] += r.get("timeouts", 0)
+        out["timeout_cases"].extend(r.get("timeout_cases", [])[:1])
     return out
 
 
@@ -712,6 +718,7 @@ def run_property(mod, tier: str, seed: int, only: Optional[List[str]] = None, sc
             "label_fraction": {k: round(v / ev, 4) for k, v in sorted(merged["labels"].items())},
             "counts": dict(sorted(merged["counts"].items())),
             "timeouts": merged["timeouts"],
+            "timeout_cases": merged["timeout_cases"][:3],
             "killed_shards": merged["killed_shards"],
             "wall_s": round(wall, 2),
         }
